@@ -187,7 +187,14 @@ func (r *Rec) end(c any, err error) {
 			// keep the first few and then a thinning sample
 			n := len(r.nt)
 			if len(r.samples) < 4 || (n&(n-1)) == 0 && len(r.samples) < 12 {
-				if b, e := json.Marshal(c); e == nil {
+				var b []byte
+				var e error
+				if d, ok := c.(interface{ Describe() string }); ok {
+					b, e = json.Marshal(map[string]any{"shown": d.Describe(), "case": c})
+				} else {
+					b, e = json.Marshal(c)
+				}
+				if e == nil {
 					if len(b) > 2048 {
 						b, _ = json.Marshal(string(b[:2000]) + "…(truncated)")
 					}
